@@ -31,6 +31,18 @@ func structTag(tag, key string) (name string, opts string) {
 // docValue describes a document node built by the harness: map (ordered), list, scalar.
 // Harness side: map[string]interface{} / []interface{} / string / int / uint / bool / nil.
 
+// appendInto is crypto/cipher's sliceForAppend: the result extends dst in place when its capacity
+// suffices (callers that pass buf[:0] get their own buffer back), else it is a fresh array.
+func (in *Interp) appendInto(dst Slice, dstBytes []*Term, extra []*Term) Slice {
+	if dst.Obj != nil && dst.Cap-dst.Len >= len(extra) {
+		for i, t := range extra {
+			in.setSlot(dst.Obj, dst.Off+dst.Len+i, t)
+		}
+		return Slice{Obj: dst.Obj, Off: dst.Off, Len: dst.Len + len(extra), Cap: dst.Cap}
+	}
+	return in.newByteSlice(append(append([]*Term(nil), dstBytes...), extra...))
+}
+
 func registerWeb(p *Program) {
 	I := p.Intr
 	// ---- AES-GCM as an ideal AEAD ----
@@ -94,7 +106,7 @@ func registerWeb(p *Program) {
 			}
 			m.recs = append(m.recs, &aeadRecord{nonce: nonce, pt: pt, ct: ct})
 		}
-		return in.newByteSlice(append(append([]*Term(nil), dst...), ct...))
+		return in.appendInto(a[1].(Slice), dst, ct)
 	}
 	I["(*crypto/cipher.gcm).Open"] = func(in *Interp, fr *frame, a []Value) Value {
 		m := a[0].(Ptr).Obj.Tag.(*aeadModel)
@@ -110,11 +122,10 @@ func registerWeb(p *Program) {
 				continue
 			}
 			if in.Branch(ts.And(in.strEq(Str{r.nonce}, Str{nonce}), in.strEq(Str{r.ct}, Str{ct}))) {
-				out := append(append([]*Term(nil), dst...), r.pt...)
-				if len(out) == 0 {
+				if len(dst)+len(r.pt) == 0 {
 					return Tuple{Slice{Obj: in.newArray(types.Typ[types.Byte], 0)}, Iface{}}
 				}
-				return Tuple{in.newByteSlice(out), Iface{}}
+				return Tuple{in.appendInto(a[1].(Slice), dst, r.pt), Iface{}}
 			}
 		}
 		// the same key in another AEAD object (another factory instance) opens what that one sealed:
@@ -132,11 +143,10 @@ func registerWeb(p *Program) {
 					continue
 				}
 				if in.Branch(ts.And(keq, ts.And(in.strEq(Str{r.nonce}, Str{nonce}), in.strEq(Str{r.ct}, Str{ct})))) {
-					out := append(append([]*Term(nil), dst...), r.pt...)
-					if len(out) == 0 {
+					if len(dst)+len(r.pt) == 0 {
 						return Tuple{Slice{Obj: in.newArray(types.Typ[types.Byte], 0)}, Iface{}}
 					}
-					return Tuple{in.newByteSlice(out), Iface{}}
+					return Tuple{in.appendInto(a[1].(Slice), dst, r.pt), Iface{}}
 				}
 			}
 		}
